@@ -1,16 +1,18 @@
 #!/bin/sh
-# usage: tools/verify_mutant.sh <ID> <X>    e.g. C05 A
-# Confirms for /tmp/mut-<ID>/<X>: patch applies on a clean scratch worktree, the unedited test
-# suite passes with it, the demonstration fails with it and passes without it.
-ID=$1; X=$2; WT=/tmp/wt-$ID; M=/tmp/mut-$ID/$X
+# usage: tools/verify_mutant.sh <dir-with-patch.diff-and-demo.rs> <label>     e.g. /tmp/mut-C05/A C05/A
+# Confirms in the scratch worktree /tmp/wt-verify (created from /repo HEAD if absent): the patch
+# applies, the unedited test suite passes with it, the demonstration fails with it and passes
+# without it. Prints one RESULT line.
+M=$1; L=$2; WT=/tmp/wt-verify
 FEAT="--features use-p256,use-xchacha20poly1305,ring-resolver,verif-hooks"
+[ -d $WT ] || git -C /repo worktree add -q $WT HEAD || exit 3
 cd $WT || exit 3
 git checkout -q -- . ; rm -f tests/demo_*.rs
-git apply $M/patch.diff || { echo "RESULT $ID/$X patch-does-not-apply"; exit 1; }
+git apply $M/patch.diff || { echo "RESULT $L patch-does-not-apply"; exit 1; }
 suite=$(cargo test --offline 2>&1 | grep -E "^test result" | awk '{p+=$4; f+=$6} END {print p" passed "f" failed"}')
-cp $M/demo.rs tests/demo_$X.rs
-with=$(cargo test --offline $FEAT --test demo_$X 2>&1 | grep -E "^test result|error(\[|:)" | head -2 | tr '\n' ' ')
+cp $M/demo.rs tests/demo_X.rs
+with=$(cargo test --offline $FEAT --test demo_X 2>&1 | grep -E "^test result|error(\[|:)" | head -1)
 git apply -R $M/patch.diff
-without=$(cargo test --offline $FEAT --test demo_$X 2>&1 | grep -E "^test result|error(\[|:)" | head -2 | tr '\n' ' ')
-rm -f tests/demo_$X.rs; git checkout -q -- .
-echo "RESULT $ID/$X suite-with-change: $suite | demo-with: $with | demo-without: $without"
+without=$(cargo test --offline $FEAT --test demo_X 2>&1 | grep -E "^test result|error(\[|:)" | head -1)
+rm -f tests/demo_X.rs; git checkout -q -- .
+echo "RESULT $L suite-with-change: $suite | demo-with-change: $with | demo-without: $without"
